@@ -24,6 +24,28 @@ def witness_template(ev_w, fn, args):
     return t
 
 
+def archive_parsers(chk, prog):
+    """site and date-time of an archive file name (also the inputs of the archive download's object key: C17)"""
+    ev0 = sym.Evaluator(prog)
+    # ---- archive identifiers
+    got, fn = eval_or_blind(chk, ev0, "VN", AI + "::site")
+    if got is not None:
+        expect_c(chk, "VN", AI + "::site", got, call("core::str::<impl str>::get", F("0"), rng(0, 4)), fn.where(), "site = bytes 0..4 (checked)")
+    evc = cm.evaluator(prog)
+    got, fn = eval_or_blind(chk, evc, "VN", AI + "::date_time")
+    if got is not None:
+        ds = call("core::str::<impl str>::get", F("0"), rng(4, 12))
+        ts = call("core::str::<impl str>::get", F("0"), rng(13, 19))
+        pd = lambda x: call("chrono::naive::date::NaiveDate::parse_from_str", x, C("%Y%m%d", "&str"))
+        pt = lambda x: call("chrono::naive::time::NaiveTime::parse_from_str", x, C("%H%M%S", "&str"))
+        want = sym.opt_match(ds, lambda d: sym.res_match(pd(d), lambda date: sym.opt_match(ts, lambda t: sym.res_match(pt(t), lambda time: some(("instant", date, time)),
+            lambda e: NONE), lambda: NONE), lambda e: NONE), lambda: NONE)
+        okk = canon_calls(got) == canon_calls(want) or piecewise_eq(canon_calls(got), canon_calls(want))
+        chk.ob("VN", AI + "::date_time", okk, "date = bytes 4..12 as %Y%m%d, time = bytes 13..19 as %H%M%S, combined as a UTC instant; None when any step fails" if okk else
+               "archive date-time parsing differs: %s" % show(got)[:400], fn.where(), key="archive-date-time")
+        chk.ob("R-SIB", AI + "::date_time", 12 - 4 == len("YYYYMMDD") and 19 - 13 == len("HHMMSS"), "slice widths equal the formats' digit counts", fn.where(), key="widths")
+
+
 def run(chk, tier):
     prog, info = common.program("all")
     common.note_extraction(chk, info, prog)
@@ -86,23 +108,7 @@ def run(chk, tier):
     if got is not None:
         okk = got[0] == "call" and got[1].endswith("::index") and got[2][0] == F("name") and got[2][1] == adt("core::ops::range::RangeTo", "RangeTo", (("end", C(15, "usize")),))
         chk.ob("VN", CI + "::name_prefix", okk, "prefix = the first 15 bytes of the name", fn.where(), key="prefix")
-    # ---- archive identifiers
-    got, fn = eval_or_blind(chk, ev0, "VN", AI + "::site")
-    if got is not None:
-        expect_c(chk, "VN", AI + "::site", got, call("core::str::<impl str>::get", F("0"), rng(0, 4)), fn.where(), "site = bytes 0..4 (checked)")
-    evc = cm.evaluator(prog)
-    got, fn = eval_or_blind(chk, evc, "VN", AI + "::date_time")
-    if got is not None:
-        ds = call("core::str::<impl str>::get", F("0"), rng(4, 12))
-        ts = call("core::str::<impl str>::get", F("0"), rng(13, 19))
-        pd = lambda x: call("chrono::naive::date::NaiveDate::parse_from_str", x, C("%Y%m%d", "&str"))
-        pt = lambda x: call("chrono::naive::time::NaiveTime::parse_from_str", x, C("%H%M%S", "&str"))
-        want = sym.opt_match(ds, lambda d: sym.res_match(pd(d), lambda date: sym.opt_match(ts, lambda t: sym.res_match(pt(t), lambda time: some(("instant", date, time)),
-            lambda e: NONE), lambda: NONE), lambda e: NONE), lambda: NONE)
-        okk = canon_calls(got) == canon_calls(want) or piecewise_eq(canon_calls(got), canon_calls(want))
-        chk.ob("VN", AI + "::date_time", okk, "date = bytes 4..12 as %Y%m%d, time = bytes 13..19 as %H%M%S, combined as a UTC instant; None when any step fails" if okk else
-               "archive date-time parsing differs: %s" % show(got)[:400], fn.where(), key="archive-date-time")
-        chk.ob("R-SIB", AI + "::date_time", 12 - 4 == len("YYYYMMDD") and 19 - 13 == len("HHMMSS"), "slice widths equal the formats' digit counts", fn.where(), key="widths")
+    archive_parsers(chk, prog)
     # ---- totality of the four parsers on arbitrary strings
     panics.check_no_panic(chk, prog, [AI + "::site", AI + "::date_time", CI + "::sequence", CI + "::chunk_type"], "string parsers")
     # ---- never volume 0 or 1000: the VolumeIndex::new assertion is discharged on the rotation domain
